@@ -1938,7 +1938,7 @@ class SecurityLevel(Enumerated):
         , 'signed':2
         , 'encrypted':3
         , 'signedEndToEnd':4
-        , 'encryptedEndToEnd':4
+        , 'encryptedEndToEnd':5
         }
 
 class SecurityPolicy(Enumerated):
